@@ -412,3 +412,36 @@ Proof.
   - repeat constructor; discriminate.
   - split; [reflexivity|]. split; [repeat constructor; discriminate|vm_compute; reflexivity].
 Qed.
+
+(** ---- several messages over one connection ---- *)
+Lemma send_st_fst : forall cs ls lf, fst (send_st ls lf cs) = send ls lf cs.
+Proof.
+  induction cs as [|c cs IH]; intros ls lf; [reflexivity|]. cbn [send_st send].
+  destruct (transform ls c) as [ls' out]. specialize (IH ls' (ends_lf out)).
+  destruct (send_st ls' (ends_lf out) cs) as [w lsf]. cbn [fst] in *. now rewrite IH.
+Qed.
+
+(** each message's bytes are those of a fresh client, whatever was sent before on the connection *)
+Lemma session_independent : forall msgs ls, session_wires ls msgs = map client_wire msgs.
+Proof.
+  induction msgs as [|cs msgs IH]; intros ls; [reflexivity|]. cbn [session_wires map].
+  pose proof (send_st_fst cs true false) as H. destruct (send_st true false cs) as [w ls']. cbn [fst] in H.
+  rewrite (IH ls'). unfold client_wire. now rewrite H.
+Qed.
+
+Definition msg_ok (m : list (list N) * list (list N)) : Prop :=
+  let '(lines, cs) := m in
+  lines <> [] /\ Forall line_ok lines /\ concat cs = unlines lines /\ Forall (fun c => c <> []) cs.
+
+Lemma session_exact_lines : forall (ms : list (list (list N) * list (list N))) (ls : bool),
+  Forall msg_ok ms ->
+  Forall2 (fun m w => forall ns, concat ns = w ->
+             snd (srun_chunks data_start ns) = map MsgLine (header_view (fst m)) ++ [Eom]
+             /\ in_data (fst (srun_chunks data_start ns)) = false)
+          ms (session_wires ls (map snd ms)).
+Proof.
+  intros ms ls H. rewrite session_independent. induction ms as [|[lines cs] ms IH]; [constructor|].
+  inversion H as [|? ? Hm Hms]; subst. cbn [map snd]. constructor; [|apply IH, Hms].
+  destruct Hm as (H1 & H2 & H3 & H4). intros ns Hns. cbn [fst].
+  destruct (exact_lines lines cs ns H1 H2 H3 H4 Hns) as (E1 & E2 & _). split; assumption.
+Qed.
